@@ -103,6 +103,18 @@ PadConvCases ==
       (c.allowed.must = "value" /\ c.known = <<>> /\ ConvPadLawAt(X, W, B, v[3], 1) /\ ConvPadLawAt(X, W, B, v[3], 2)) =>
          P(c @@ [pad |-> [ins |-> <<[pos |-> 0, axis |-> 1, blocks |-> 1, dim |-> "c"], [pos |-> 1, axis |-> 1, blocks |-> 1, dim |-> "c"]>>, outs |-> <<>>, attr |-> ""]])
 
+\* float64 operands whose products and partial sums need more than the 24 significant bits of a float32 (and far fewer than the 53 of a
+\* float64): exact in the declared type, so the expected values are exact - an accumulation in a narrower type than the tensors' shows
+WideProductCases ==
+   LET X1 == T("f64", <<1, 2, 3>>, <<4097, 4099, 3, -4101, 5, 4103>>)
+       W1 == T("f64", <<2, 2, 2>>, <<4099, 4097, 1, 4105, -4097, 3, 4099, 1>>)
+       X2 == T("f64", <<1, 1, 2, 3>>, <<4097, -4099, 4101, 7, 4103, 4105>>)
+       W2 == T("f64", <<1, 1, 2, 2>>, <<4099, 4101, -4103, 4097>>)
+       E(X, W, B, attrs, d) == P([CaseRec("wideprod", attrs, IF IsNil(B) THEN <<X, W>> ELSE <<X, W, B>>, SemConv(X, W, B, attrs),
+                                          <<"value", "f64", d, "products_beyond_24_bits">>) EXCEPT !.known = KnownConv(X, W, B, attrs)])
+   IN /\ \A attrs \in {<<>>, <<AIs("pads", <<1, 1>>)>>} : E(X1, W1, Nil, attrs, "1d") /\ E(X1, W1, Bia("f64", 2), attrs, "1d")
+      /\ \A attrs \in {<<>>, <<AIs("pads", <<0, 1, 0, 1>>)>>} : E(X2, W2, Nil, attrs, "2d")
+
 \* long images (an output count that is no multiple of a block size)
 LongConvCases ==
    /\ P(ConvCase("long", <<1, 1, 40003>>, <<1, 1, 2>>, <<>>, TRUE, "f32", <<"1d", "long">>))
@@ -114,7 +126,7 @@ Init ==
    \/ ("conv2d" \in Fams /\ st \in [fam : {"conv2d"}, H : 2..MaxHW, W : 2..MaxHW, kh : 1..MaxK2, kw : 1..MaxK2, done : {FALSE}])
 Emit ==
    /\ ~st.done
-   /\ CASE st.fam = "conv1d" -> Conv1D(st.L, st.k, st.s, st.d) /\ (st.L = 1 /\ st.k = 1 /\ st.s = 1 /\ st.d = 1 => SpecialCases /\ LongConvCases /\ TileConvCases /\ ManyKernelCases /\ WideExtentCases /\ PadConvCases)
+   /\ CASE st.fam = "conv1d" -> Conv1D(st.L, st.k, st.s, st.d) /\ (st.L = 1 /\ st.k = 1 /\ st.s = 1 /\ st.d = 1 => SpecialCases /\ LongConvCases /\ TileConvCases /\ ManyKernelCases /\ WideExtentCases /\ PadConvCases /\ WideProductCases)
         [] st.fam = "conv2d" -> Conv2D(st.H, st.W, st.kh, st.kw)
    /\ st' = [st EXCEPT !.done = TRUE]
 Next == Emit
